@@ -1027,8 +1027,8 @@ func callBuiltin(caller *frame, callpos token.Pos, fn *ssa.Builtin, args []value
 			// append([]byte, ...string) []byte
 			return append(args[0].([]value), strToBytes(s)...)
 		}
-		// append([]T, ...[]T) []T
-		return append(args[0].([]value), args[1].([]value)...)
+		// append([]T, ...[]T) []T  (aggregate elements are copied: slice cells are memory)
+		return append(args[0].([]value), copyElems(args[1].([]value))...)
 
 	case "copy": // copy([]T, []T) int or copy([]byte, string) int
 		src := args[1]
@@ -1036,7 +1036,7 @@ func callBuiltin(caller *frame, callpos token.Pos, fn *ssa.Builtin, args []value
 		case string, sstr:
 			src = strToBytes(s)
 		}
-		return copy(args[0].([]value), src.([]value))
+		return copy(args[0].([]value), copyElems(src.([]value)))
 
 	case "close": // close(chan T)
 		c, _ := args[0].(*channel)
@@ -1603,4 +1603,38 @@ func fandbits[F floaty](x, y F) F {
 		*(*uint64)(unsafe.Pointer(&x)) &= *(*uint64)(unsafe.Pointer(&y))
 	}
 	return x
+}
+
+// copyAgg returns a copy of v whose struct/array parts share no storage with v.
+func copyAgg(v value) value {
+	switch v := v.(type) {
+	case structure:
+		a := make(structure, len(v))
+		for i := range v {
+			a[i] = copyAgg(v[i])
+		}
+		return a
+	case array:
+		a := make(array, len(v))
+		for i := range v {
+			a[i] = copyAgg(v[i])
+		}
+		return a
+	}
+	return v
+}
+
+func copyElems(s []value) []value {
+	if len(s) == 0 {
+		return s
+	}
+	switch s[0].(type) {
+	case structure, array:
+		out := make([]value, len(s))
+		for i := range s {
+			out[i] = copyAgg(s[i])
+		}
+		return out
+	}
+	return s
 }
